@@ -200,6 +200,8 @@ def scenario2d(rng, allper=False, nmax=6, big=0.0):
     p = 10 ** rng.uniform(-1, 1) * (1 + 0.5 * rng.uniform(-1, 1, n))
     c = np.sqrt(gam * p / rho)
     V = np.vstack([rng.uniform(-2, 2, n) * c, rng.uniform(-2, 2, n) * c])
+    if rng.random() < 0.1:
+        V = V * float(10 ** rng.uniform(-14, -4))          # nearly at rest everywhere (acoustic amplitudes)
     prim = [rho, V, p]
     bcl = {t: {"type": "per"} for t in m.list_of_bctags()} if allper else bc2d(rng, m, prim, gam)
     k = float(rng.choice([-1.0, 0.0, 1.0 / 3.0, 0.5, 1.0, np.round(rng.uniform(-1, 1), 3)]))
